@@ -277,13 +277,15 @@ def enc_attr(atype, payload):
     return struct.pack('<HH', ln, atype) + bytes(payload) + b'\0' * pad
 
 
-def enc_ack(errno_neg, request):
-    """netlink_ack(): error 0 carries only the request header, an error carries the whole request."""
+def enc_ack(errno_neg, request, portid=None):
+    """netlink_ack(): error 0 carries only the request header, an error carries the whole request.  nlmsg_pid of the reply is the port id
+    of the socket that sent the request (NETLINK_CB(in_skb).portid), not what the requester wrote into its own header; the echoed request
+    inside the payload is returned as it was sent."""
     body = bytearray(4)
     body[0:4] = int(errno_neg).to_bytes(4, 'little', signed=True)
     body += request[:16] if errno_neg == 0 else request
     return enc_nlmsg(K['NLMSG_ERROR'], 0, _uint(request, 8, 4) if len(request) >= 12 else 0,
-                     _uint(request, 12, 4) if len(request) >= 16 else 0, body)
+                     (_uint(request, 12, 4) if len(request) >= 16 else 0) if portid is None else portid, body)
 
 
 def enc_expire(sa, hard):
@@ -358,7 +360,7 @@ class FakeKernel:
 
     # ---- request path ------------------------------------------------------------------
 
-    def request(self, raw):
+    def request(self, raw, portid=None):
         """Handle one datagram written to a NETLINK_XFRM socket; returns the bytes to be read back
         (or None when the kernel would not answer)."""
         raw = bytes(raw)
@@ -409,7 +411,7 @@ class FakeKernel:
             # deleting an SA the kernel itself already removed (hard expiry): the ledger counts it as deleted
             sid = rec['decoded']['id']
             self.ledger.append(('del', (sid['daddr_raw'], sid['proto'], sid['spi']), self.world.now, rec['no']))
-        reply = enc_ack(-rec['errno'], msg)
+        reply = enc_ack(-rec['errno'], msg, portid)
         style = self.reply_style.get(rec['no'])
         if style == 'padded' and rec['errno'] == 0:
             reply = reply + b'\0' * 0   # kernel never pads datagrams; kept for symmetry
@@ -825,6 +827,12 @@ class FakeNetlinkSocket:
         self.queue = []
         self.closed = False
         self.kind = 'xfrm'
+        # netlink autobind: the first socket of a process gets its pid as port id, further ones (while that one is open) a kernel-chosen id
+        taken = getattr(kernel, 'portids', None)
+        if taken is None:
+            taken = kernel.portids = set()
+        self.portid = 4242 if 4242 not in taken else next(x for x in range(0xFFFFEFFF, 0xFFFF0000, -1) if x not in taken)
+        taken.add(self.portid)
         if groups:
             kernel.event_socks.append(self)
 
@@ -833,7 +841,7 @@ class FakeNetlinkSocket:
 
     def send(self, data):
         self.node.syscall('nl_send')
-        reply = self.kernel.request(data)
+        reply = self.kernel.request(data, self.portid)
         if reply is not None:
             self.queue.append(reply)
         return len(data)
@@ -854,5 +862,6 @@ class FakeNetlinkSocket:
 
     def close(self):
         self.closed = True
+        getattr(self.kernel, 'portids', set()).discard(self.portid)
         if self in self.kernel.event_socks:
             self.kernel.event_socks.remove(self)
